@@ -119,6 +119,7 @@ static bool status_word(const Shape& s, std::string& word, const std::string& op
   try { std::ostringstream o; s.ascii_dump(o); text = o.str(); }
   catch (const std::exception& e) { violation(key("C03.unobservable", op, cls), std::string("ascii_dump threw ") + typeid(e).name() + ": " + e.what()); return false; }
   std::string low = text; for (size_t i = 0; i < low.size(); ++i) low[i] = tolower(low[i]);
+  if (low.find("-inf") != std::string::npos) { violation(key("C03.unobservable", op, cls), "minus-infinity entry in the matrix (no rational bound; constraints() reads it as garbage): " + cut(text, 400)); return false; }
   if (low.find("nan") != std::string::npos) { violation(key("C03.unobservable", op, cls), "NaN entry in the matrix: " + cut(text, 400)); return false; }
   size_t p = text.find("EM"); word = "?";
   if (p != std::string::npos) { size_t a = text.rfind('\n', p); a = (a == std::string::npos) ? 0 : a + 1; size_t b = text.find('\n', p); word = text.substr(a, b - a); }
@@ -518,7 +519,7 @@ static bool mutate(StepCtx& c) {
   Sys RC;
   if (!observe(A, RC, op, cls03)) return false;
   if ((int) A.dim() != n) { violation(key("C03.sound", op, "dimension"), "space dimension changed"); return false; }
-  if (!g.ti.exact) { // the client-visible constraints() of the result must not cut points of the result's own matrix
+  { // the client-visible constraints() of the result must not cut points of the result's own matrix
     Sys VC;
     try { SP c2(A.clone()); VC = ref::conv(c2->constraints(), n); }
     catch (const std::exception& e) { violation(key("C03.unobservable", op, cls03), std::string("constraints() of a copy threw ") + typeid(e).name() + ": " + e.what()); return false; }
